@@ -175,7 +175,7 @@ C("C16", "TestC16", P(3000), P(8000, 16, 2400), pkg="conc", flavour="inst",
   exhaustive_part="thorough tier: the C04 pre-emption enumerations re-run with the M16 monitor")
 
 C("C06", "TestC06", P(400), P(1500, 16, 3000), pkg="conc", flavour="inst", level="fault_enumeration",
-  rule="rapid-generated (initial stack of 0..6 transactions incl. tombstones and logs, one target operation from {Add, multi-table Addition, abandoned Addition, CompactAll, CompactAll with expiry, AutoCompact, Clean, Close}, auto-compaction on/off, optionally a surviving second process with 1..3 operations); "
+  rule="rapid-generated (initial stack of 0..6 transactions incl. tombstones and logs, one target operation from {Add, multi-table Addition, abandoned Addition, CompactAll, CompactAll with expiry, AutoCompact, Clean, Close}, auto-compaction on/off, optionally a surviving second process with 1..3 operations which in half of those cases opens and reads BEFORE the target operation starts and continues after the kill on that outdated handle, with Clean/Close/compactions weighted up); "
        "the operation is first run uncrashed to count its n filesystem calls and to obtain the states before/after (decoded from disk by specdec); then for EVERY k in 0..n-1 the identical initial state is rebuilt and the process is killed in front of call k; "
        "oracle: the committed state at the kill is exactly before or exactly after; a fresh NewStack opens and reads it (M5 after every step, M4 for every later transition, M10 for the survivor); survivor writes fail only with ErrLockFailure; "
        "evaluations = (case, crash point) executions; non-trivial = crash point after the first rename of the run; distinct = (case hash, k)",
@@ -196,10 +196,10 @@ C("C19", "TestC19", P(300, timeout=900), P(800, 16, 2400), race=True,
 
 C("C18", "TestC18", P(20000, timeout=900), P(100000, 16, 3000), fuzz={"target": "FuzzReader", "pkg": "checks", "seconds": 300},
   rule="rapid-generated small valid tables of every layout, damaged by 1..4 edits: bit flips, byte sets (hostile constants), truncations, splices from a second table, byte insertions, and overwrites of structural fields located with specdec "
-       "(version, block size, hash id, block type/length, first records, restart counts/offsets, footer offsets) with 1/2/3/8-byte hostile words, and 'redirects' (the position varint of an index entry or object record rewritten to the offset of another or the same block, same encoded length: cycles and type confusion in the index descent) and hostile varints (huge / over-long encodings over count, position and key-length fields); the footer copy and CRC are repaired in 5/6 of the cases so that the block decoders are reached; "
+       "(version, block size, hash id, block type/length, first records, restart counts/offsets, footer offsets) with 1/2/3/8-byte hostile words, and 'redirects' (the position varint of an index entry or object record rewritten to the offset of another or the same block, same encoded length: cycles and type confusion in the index descent) and hostile varints (huge / over-long encodings over every varint field the independent decoder finds in the first and last records of a block: prefix/suffix lengths, update-index deltas, string lengths, counts, positions); in a third of the cases with logs the last log block is inflated, edited the same way (its varint fields and restart table as targets), deflated again and put back with block_len, log-index offset and CRC adjusted, so that damage reaches the log record decoder behind the zlib checksum; the footer copy and CRC are repaired in 5/6 of the cases so that the block decoders are reached; "
        "target: NewReader, full scans, SeekRef/SeekLog/RefsFor for original and foreign keys, the same through one- and two-table NewMerged; "
        "oracle: every call returns records or an error - a panic, an iterator yielding more records than the file has bytes, more than 64 MiB allocated for a KiB-sized file, or no return within 60 s is a violation; "
-       "thorough additionally runs the native coverage-guided fuzzer on the same oracle; non-trivial = the damaged file still opens; distinct = hash of the case JSON",
+       "thorough additionally runs the native coverage-guided fuzzer on the same oracle (inputs starting with 'L' are wrapped as the inflated content of a log block of a valid table); non-trivial = the damaged file still opens; distinct = hash of the case JSON",
   technique="mutation-based property testing (rapid) plus coverage-guided fuzzing (go test -fuzz) with a crash/termination/allocation oracle",
   level_text="Generated structural mutations of valid tables and (thorough) coverage-guided fuzzing; only crashes, non-termination and unbounded allocation are judged, any error return is fine. " + BOUNDED,
   level_note="The 60 s watchdog is the only timing-dependent signal; typical cases take microseconds.",
